@@ -380,6 +380,14 @@ func Corpus(tier string, embedded []*Schema) []*Schema {
 		bm.field("thing", 1, tMessage, am.path)
 		bm.repeated("things", 2, tMessage, am.path)
 		fb.MessageType = append(fb.MessageType, bm.msg)
+		// the same short message name in the second package, with names that need rewriting in both
+		am.field("type", 2, tString, "")
+		bt := newMsg("vc.samename.two", "Thing")
+		bt.field("type", 1, tInt32, "")
+		bt.field("get", 2, tString, "")
+		bo := bt.oneof("has")
+		bt.member(bo, "clear", 3, tBool, "")
+		fb.MessageType = append(fb.MessageType, bt.msg)
 		// and two files of the SAME Go package, one importing the other (init chaining within a package)
 		fc := file("vc/samename/three.proto", "vc.samename.two", goPkg("samename", "two/types"), "vc/samename/two.proto")
 		cm := newMsg("vc.samename.two", "Outer")
@@ -462,6 +470,23 @@ func Corpus(tier string, embedded []*Schema) []*Schema {
 		deep.field("descriptor", 1, tString, "")
 		deep.field("new", 2, tBytes, "")
 		f.MessageType = append(f.MessageType, ns.msg)
+		// messages that repeat the SHORT names of earlier ones (nested elsewhere) and collide again
+		ot := newMsg(pkg, "Other")
+		oin := ot.nested("Inner")
+		oin.field("type", 1, tString, "")
+		oin.field("clear", 2, tInt64, "")
+		oo := oin.oneof("get")
+		oin.member(oo, "set", 3, tBool, "")
+		oin.member(oo, "mutable", 4, tBytes, "")
+		oc := ot.nested("Collide")
+		oc.field("has", 1, tString, "")
+		oc.field("range", 2, tInt32, "")
+		od := oin.nested("Deeper")
+		od.field("interface", 1, tString, "")
+		om := ot.nested("Message")
+		om.field("new_field", 1, tString, "")
+		ot.field("inner", 1, tMessage, oin.path)
+		f.MessageType = append(f.MessageType, ot.msg)
 		add(&Schema{Name: "names", Files: []*descriptorpb.FileDescriptorProto{f}})
 	}
 
@@ -520,6 +545,57 @@ func Corpus(tier string, embedded []*Schema) []*Schema {
 			f.MessageType = append(f.MessageType, m.msg)
 		}
 		add(&Schema{Name: "oneofnames", Files: []*descriptorpb.FileDescriptorProto{f}})
+	}
+
+	// ---- several messages (same file, nested, and a second file of the same invocation) whose oneofs, fields and
+	// nested types share names: anything the generator remembers between messages or files shows up here
+	{
+		pkg := "vc.oneofsame"
+		fa := file("vc/oneofsame/a.proto", pkg, goPkg("oneofsame", "a"))
+		fb := file("vc/oneofsame/b.proto", pkg+".b", goPkg("oneofsame", "b"))
+		mk := func(f *descriptorpb.FileDescriptorProto, p string, names ...string) {
+			for i, n := range names {
+				m := newMsg(p, n)
+				m.field("id", 1, tInt64, "")
+				m.mapField("attrs", 2, tString, tInt32, "")
+				o := m.oneof("value")
+				m.member(o, "text", 3, tString, "")
+				m.member(o, "num", 4, T(int(tSint32)+i%2), "")
+				m.member(o, "raw", 5, tBytes, "")
+				o2 := m.oneof("extra")
+				m.member(o2, "flag", 6, tBool, "")
+				m.member(o2, "ratio", 7, tDouble, "")
+				in := m.nested("Item")
+				oi := in.oneof("value")
+				in.member(oi, "text", 1, tString, "")
+				in.member(oi, "num", 2, tFixed32, "")
+				m.repeated("items", 8, tMessage, in.path)
+				f.MessageType = append(f.MessageType, m.msg)
+			}
+		}
+		mk(fa, pkg, "Request", "Response", "Event")
+		mk(fb, pkg+".b", "Request", "Response")
+		add(&Schema{Name: "oneofsame", Files: []*descriptorpb.FileDescriptorProto{fa, fb}})
+	}
+
+	// ---- enum with allow_alias (two names for one number)
+	{
+		pkg := "vc.enumalias"
+		f := file("vc/enumalias.proto", pkg, goPkg("enumalias", ""))
+		e := enum("Level", "LEVEL_UNSPECIFIED", 0, "LEVEL_LOW", 1, "LEVEL_MIN", 1, "LEVEL_HIGH", 2, "LEVEL_MAX", 2, "LEVEL_DEFAULT", 0)
+		e.Options = &descriptorpb.EnumOptions{AllowAlias: proto.Bool(true)}
+		f.EnumType = append(f.EnumType, e)
+		m := newMsg(pkg, "HasLevel")
+		m.field("level", 1, tEnum, "."+pkg+".Level")
+		m.repeated("levels", 2, tEnum, "."+pkg+".Level")
+		m.mapField("by_name", 3, tString, tEnum, "."+pkg+".Level")
+		ne := enum("Inner", "A", 0, "B", 0, "C", 5)
+		ne.Options = &descriptorpb.EnumOptions{AllowAlias: proto.Bool(true)}
+		m.msg.EnumType = append(m.msg.EnumType, ne)
+		o := m.oneof("o")
+		m.member(o, "inner", 4, tEnum, m.path+".Inner")
+		f.MessageType = append(f.MessageType, m.msg)
+		add(&Schema{Name: "enumalias", Files: []*descriptorpb.FileDescriptorProto{f}})
 	}
 
 	// ---- requests that must not produce code
